@@ -42,6 +42,9 @@ def handle (op : String) (args : List String) : Option String :=
   | "c04.holds.encodings_agree" | "c04.holds.uchar_scalar_ascii_agrees" => do
       let (a, b, c) ← run (do let a ← pOkMesh; let b ← pOkMesh; let c ← pOkMesh; pure (a, b, c)) args
       pure (boolStr (meshEq a b && meshEq b c))
+  | "c04.holds.header_cut_rejected" =>
+      -- args: cut position, result class of ply.ReadHeader on the strict prefix; theorem ply_header_cut_bytes: an error
+      some (boolStr (match args with | [_, "err"] => true | _ => false))
   | "c04.holds.entrypoints_agree" | "c04.holds.header_entrypoints_agree" | "c04.holds.save_agrees" =>
       some (boolStr (allSegmentsEqual args))
   | _ => none
